@@ -321,7 +321,31 @@ def run(repo, rep):
         rep.check(len(outp) == 1 and any(isinstance(s, ast.Assign) and norm(s) == "new_tens.ifm_write_protected = True" for s in outp[0].stmt.body), "C03-f",
                   f"ethosu/vela/extract_npu_subgraphs.py:{fn}", "subgraph outputs are write protected", "")
     fu = lr.func("_get_ifm_to_fuse")
-    rep.check("not inp.tens.ifm_write_protected" in norm(fu), "C03-f", f"{LR}:_get_ifm_to_fuse", "write-protected inputs are never fused with the output", "")
+    # every way of choosing an input whose buffer the output takes over excludes write-protected inputs: the test(s) guarding
+    # `ifm_tens = <tensor>` contain `not <tensor>.ifm_write_protected` (as a conjunct, or as a disjunct of a negated disjunction)
+    n_fuse = 0
+    for st in ast.walk(fu):
+        if not (isinstance(st, ast.Assign) and str(norm(st.targets[0])) == "ifm_tens") or (isinstance(st.value, ast.Constant) and st.value.value is None):
+            continue
+        name = str(norm(st.value))
+        cur, excluded = st, False
+        while cur is not None and cur is not fu:
+            par = lr.parents.get(cur)
+            if isinstance(par, ast.If) and any(cur is b for b in par.body):
+                t = par.test
+                if isinstance(t, ast.UnaryOp) and isinstance(t.op, ast.Not):
+                    inner = t.operand
+                    parts = inner.values if isinstance(inner, ast.BoolOp) and isinstance(inner.op, ast.Or) else [inner]
+                    excluded = excluded or any(str(norm(x)) == f"{name}.ifm_write_protected" for x in parts)
+                else:
+                    excluded = excluded or any(str(norm(x)) == f"not {name}.ifm_write_protected" for x in conjuncts(t))
+            cur = par
+        n_fuse += 1
+        rep.check(excluded, "C03-f", f"{LR}:_get_ifm_to_fuse", f"`{name}` is chosen for reuse only if it is not write protected",
+                  f"the branch that sets ifm_tens = {name} never looks at {name}.ifm_write_protected: the copy of a reshape is elided into a protected input (one that is still read "
+                  "outside this NPU subgraph), and an in-place elementwise operator on the copy then overwrites that input (demonstrated: x -> RESHAPE -> ABS -> RESHAPE -> z2, FLOOR_DIV(x, z2) on the CPU: x and z2 share offset 0)")
+    if n_fuse < 2:
+        raise AnalysisError("_get_ifm_to_fuse: fewer than two reuse branches found")
     # graph rewrites that split an operator into several: a tensor cloned from the operator's *input* and then written by a
     # new operation must get its own identity (set_unique=True); otherwise it shares the input's equivalence id, hence its
     # address, and the new operation overwrites the input while later consumers still read it
